@@ -9,7 +9,7 @@ PROP = {
     "mutex_rewrite": True,
     "glue": "GH", "chk": "chk01", "explain": "explainH",
     "gotags": ["shim_memory", "shim_redis", "shim_timecache"],
-    "n": {"quick": 120, "thorough": 3000},
+    "n": {"quick": 120, "thorough": 1500},
     "rule": HIST_RULE + " Emphasis C01: announce/scrape/store-op mix; every scrape, response count, delete result and membership dump is compared.",
     "tags": HIST_TAGS, "reasons": HIST_REASONS, "assumptions": HIST_ASSUMPTIONS,
     "trivial_tags": [], "min_tags": 4,
